@@ -133,3 +133,95 @@ def load_program(obj):
     return dict(consts=list(obj["consts"]), preds={k: tuple(v) for k, v in obj["preds"].items()},
                 stmts=[stmt(s) for s in obj["stmts"]], queries=[tup(q) for q in obj["queries"]],
                 evidence=[(tup(a), bool(v)) for a, v in obj["evidence"]])
+
+
+def ground_text_to_sem(text):
+    """A ground ProbLog text (as written by to_prolog) as a `SEM` driver line: -> (line, [query names]) or None.
+    Every probabilistic fact / annotated clause is an independent choice, an annotated disjunction one group."""
+    from fractions import Fraction
+    from problog.program import PrologString
+    from problog.logic import Clause, AnnotatedDisjunction, Not, And, Or, Term
+    from lib import rat
+    try:
+        stmts = list(PrologString(text))
+    except Exception:
+        return None
+    atoms, rules, groups, queries, evidence = {}, [], [], [], []
+
+    def aid(t):
+        k = str(t.with_probability(None)) if isinstance(t, Term) else str(t)
+        if k not in atoms:
+            atoms[k] = len(atoms)
+        return atoms[k]
+
+    def conj(b):
+        if isinstance(b, And):
+            return conj(b.op1) + conj(b.op2)
+        return [b]
+
+    def lits(b):
+        pos, neg = [], []
+        for l in ([] if b is None else conj(b)):
+            if isinstance(l, Not):
+                neg.append(aid(l.child))
+            elif isinstance(l, Or):
+                return None
+            elif str(l) in ("true",):
+                continue
+            elif str(l) in ("fail", "false"):
+                pos.append(aid(Term("$fail")))
+            else:
+                pos.append(aid(l))
+        return pos, neg
+    nch = 0
+    for st in stmts:
+        if isinstance(st, Clause):
+            heads, body = [st.head], st.body
+        elif isinstance(st, AnnotatedDisjunction):
+            heads, body = list(st.heads), st.body
+        elif isinstance(st, Or):
+            heads, body = [], None
+            x = st
+            while isinstance(x, Or):
+                heads.append(x.op1)
+                x = x.op2
+            heads.append(x)
+        else:
+            heads, body = [st], None
+        if len(heads) == 1 and heads[0].functor == "query" and body is None:
+            queries.append(heads[0].args[0])
+            continue
+        if len(heads) == 1 and heads[0].functor == "evidence" and body is None:
+            a = heads[0].args
+            if len(a) == 2:
+                evidence.append((a[0], str(a[1]) == "true"))
+            elif isinstance(a[0], Not):
+                evidence.append((a[0].child, False))
+            else:
+                evidence.append((a[0], True))
+            continue
+        pn = lits(body)
+        if pn is None:
+            return None
+        grp = []
+        for h in heads:
+            if h.probability is None:
+                rules.append((aid(h), pn[0], pn[1], None))
+            else:
+                try:
+                    p = Fraction(str(float(h.probability)))
+                except Exception:
+                    return None
+                rules.append((aid(h), pn[0], pn[1], nch))
+                grp.append((p, nch))
+                nch += 1
+        if grp:
+            groups.append(grp)
+    qs = [aid(q) for q in queries]
+    evs = [(aid(a), v) for a, v in evidence]
+    rs = ["(%d (%s) (%s) %s)" % (h, " ".join(map(str, p)), " ".join(map(str, n)), "-" if c is None else c) for h, p, n, c in rules]
+    gs = ["(%s)" % " ".join("(%s %d)" % (rat(p), c) for p, c in g) for g in groups]
+    line = "SEM (prog %d %d (rules %s) (groups %s)) (%s) (%s)" % (
+        len(atoms), nch, " ".join(rs), " ".join(gs), " ".join(map(str, qs)),
+        " ".join("(%d %s)" % (a, "t" if v else "f") for a, v in evs))
+    return line, [str(q) for q in queries]
